@@ -128,14 +128,15 @@ var alwaysFsm = fsm{
 	},
 }
 
-// neverFsm is equivalent to always, switching the end states.
+// neverFsm is always with the truth value switched: a true
+// observation disappoints, the end of the period satisfies.
 var neverFsm = fsm{
 	name:       "never",
 	startState: 0,
 	stateNames: []string{"checking", "bad", "good"},
 	labels:     []string{"t", "f", "end", "reset"},
 	edges: [][]int{
-		0: []int{0, 2, 1, 0}, // checking
+		0: []int{1, 0, 2, 0}, // checking
 		1: []int{1, 1, 1, 0}, // bad
 		2: []int{2, 2, 2, 0}, // good
 	},
